@@ -1063,6 +1063,9 @@ class Interp:
             if d.is_const():
                 c = d.const_value()
                 return {ast.Eq: c == 0, ast.NotEq: c != 0, ast.Lt: c < 0, ast.LtE: c <= 0, ast.Gt: c > 0, ast.GtE: c >= 0}[type(op)]
+            if abs(d.const_value()) >= 2 ** 62 and isinstance(op, (ast.Eq, ast.NotEq)):
+                # assumption: positions/sizes are far below 2**62, so they never equal the reserved null
+                return isinstance(op, ast.NotEq)
             return Unk(f"{a!r} {_OPS[type(op)]} {b!r}")
         if isinstance(op, (ast.Eq, ast.NotEq)):
             r = self._eq(a, b)
@@ -1107,6 +1110,12 @@ class Interp:
 
     # ------------------------------------------------------------------ builtins
     def _pymethod(self, v, name):
+        if name == "__len__" and isinstance(v, (list, tuple, dict, str, bytes)):
+            return Builtin("len", lambda: len(v))
+        if name == "__class__":
+            return Obj("pytype", {"__name__": type(v).__name__}, name=type(v).__name__)
+        if name == "__getitem__" and isinstance(v, (list, tuple, dict)):
+            return Builtin("getitem", lambda k: self.subscript(v, k))
         if isinstance(v, dict):
             if name == "items":
                 return Builtin("dict.items", lambda: [(k, v[k]) for k in list(v.keys())])
